@@ -1,6 +1,7 @@
 import LibconfigModel.Step
 import LibconfigModel.WF
 import LibconfigModel.Locale
+import LibconfigModel.Alloc
 /-
   Line-protocol driver: one operation per line on stdin, one canonical line on
   stdout.  The C harness (harness/drv_api.c) executes the same lines on the real
@@ -197,6 +198,40 @@ def stepLine (st : State) (w : List String) : State × String :=
         (r2.ok, applyRadix radix (r2.cfg.write Generated.FLOAT_BUF_SIZE))
       (st, s!"{b2s rd.ok} {hex out} {b2s r2.1} {b2s (r2.2 == out)} {b2s (l2.thread == l.thread)} {b2s (l2.globalRadix == l.globalRadix)} {l.effective} {l2.effective}")
     | _, _, _ => (st, "bad-op")
+  | ["alloccase", _, k, n] =>
+    -- C13: the k-th of n allocation requests (all through checked wrappers) fails
+    match k.toInt?, n.toNat? with
+    | some k, some n =>
+      if k < 0 then (st, "count")
+      else
+        match runAllocs (List.replicate n Act.alloc) (some k.toNat) 0 with
+        | .fatal _ => (st, "handler")
+        | .normal _ => (st, "normal-same")
+    | _, _ => (st, "bad-op")
+  | ["thrcase", _, _, _] => (st, "ok")     -- C14_serial: every thread's transcript equals its serial transcript
+  | ["lex", text] =>
+    -- the token stream of yylex on a string (same format as the harness)
+    match unhex text with
+    | some text =>
+      let T := Generated.tokens
+      let rec go (fuel : Nat) (s : ScanState) (acc : String) : String :=
+        match fuel with
+        | 0 => acc ++ "fuel"
+        | fuel + 1 =>
+          match yylex Generated.scanner Generated.scanActions st.world { fn := 0, dir := none } readFuel s with
+          | (s', .tok t v) =>
+            let val :=
+              if t == T.string || t == T.name then ":" ++ hex v.sval
+              else if t == T.boolean || t == T.integer || t == T.hex || t == T.integer64 || t == T.hex64 then s!":{v.ival}"
+              else if t == T.float then ":" ++ hex64 v.fval
+              else ""
+            go fuel s' (acc ++ s!"{t}{val}@{s'.buf.lineno} ")
+          | (_, .eof) => acc ++ "eof"
+          | (s', .includeError t _ _ _) => go fuel s' (acc ++ s!"{t}@{s'.buf.lineno} ")
+          | (_, .echo b) => acc ++ s!"echo-{b}"
+          | (_, .outOfFuel) => acc ++ "out-of-fuel"
+      (st, go 100001 { buf := { rest := cstr text } } "")
+    | none => (st, "bad-op")
   | ["wfcase", text, fsync, kind, param] =>
     -- C12: parse a configuration, then config_write_file under the I/O faults the kind denotes
     match unhex text, fsync.toNat?, param.toNat? with
